@@ -69,6 +69,12 @@ def gen_case(rng, tier):
         new = g.unary(state, rng.choice(["calc", "sel", "sort", "slice", "dedup", "proj"]))
         if new and new[1]:
             state = new
+    if rng.random() < 0.2:
+        # pairs on top of a compound (UNION) relation
+        state = (["chain", state[0], state[0]], state[1], state[2])
+        if rng.random() < 0.5:
+            nxt = g.unary(state, "sort")
+            state = nxt or state
     kind = rng.choice(PAIRS)
     prog, cols, eng = state
     first = second = None
